@@ -136,7 +136,31 @@ def fn_effects(model, path):
     return out
 
 
-def enumerate_chains(model, root, start_blocks=None, max_depth=6, follow=None):
+def dispatch_on_enum(view, enum_suffix):
+    """Find a `match` on a value of the enum whose path ends with enum_suffix, wherever the value
+    comes from (e.g. the decoded cw20 hook message). -> (switch_block, enum, {variant: target})"""
+    for b in sorted(view.live_blocks()):
+        t = view.blocks[b]["t"]
+        if t["k"] != "switch":
+            continue
+        c = resolve_bool(view, t["discr"])
+        if c.kind != "discr" or not c.__dict__.get("variants") or not (c.enum or "").endswith(enum_suffix):
+            continue
+        table = {}
+        used = set()
+        for val, tgt in t["targets"]:
+            name = c.variants.get(val)
+            if name is not None:
+                table[name] = tgt
+                used.add(val)
+        for vv, n in c.variants.items():
+            if vv not in used:
+                table[n] = t["otherwise"]
+        return b, c.enum, table
+    return None
+
+
+def enumerate_chains(model, root, start_blocks=None, max_depth=6, follow=None, prefix=()):
     """Yield (chain, path) for every call chain root -> ... -> f, where chain is a tuple of
     (fn_path, block) call sites leading to f (the last element's callee is f). The root itself
     is yielded with an empty chain. Recursion is cut at max_depth and on cycles.
@@ -145,10 +169,10 @@ def enumerate_chains(model, root, start_blocks=None, max_depth=6, follow=None):
 
     def rec(path, chain, seen):
         out.append((chain, path))
-        if len(chain) >= max_depth:
+        if len(chain) - len(prefix) >= max_depth:
             return
         for b, c, k in model.callees(path):
-            if not chain and start_blocks is not None and b not in start_blocks:
+            if path == root and start_blocks is not None and b not in start_blocks:
                 continue
             if c not in model.fnsrc or c in seen:
                 continue
@@ -156,7 +180,7 @@ def enumerate_chains(model, root, start_blocks=None, max_depth=6, follow=None):
                 continue
             rec(c, chain + ((path, b, k),), seen | {c})
 
-    rec(root, (), {root})
+    rec(root, tuple(prefix), {root} | {c[0] for c in prefix})
     return out
 
 
@@ -186,3 +210,38 @@ def resolve_param_item(model, chain, param_idx):
         elif o.kind == "param" and not o.proj:
             res |= resolve_param_item(model, chain[:-1], o.a)
     return res
+
+
+CONFIG_CLASS_MSGS = re.compile(r"(WasmMsg::(Instantiate|Migrate|UpdateAdmin|ClearAdmin)|::ExecuteMsg::UpdateConfig)$")
+CONFIG_CLASS_CALLS = re.compile(r"^cw_controllers::(Hooks::(execute_add_hook|execute_remove_hook|add_hook|remove_hook)"
+                                r"|Admin::(execute_update_admin|set))$")
+MSG_EFFECT = re.compile(r"^cosmwasm_std::(WasmMsg|BankMsg|SubMsg|StakingMsg|DistributionMsg)::")
+MSG_HELPER_CALLS = re.compile(r"^cosmwasm_std::(wasm_execute|wasm_instantiate)$|^cosmwasm_std::SubMsg::(new|reply_\w+)$")
+
+
+def collect_effects(model, root, start_blocks=None, prefix=()):
+    """[(chain, effect, item)] for all state/message effects reachable from `start_blocks` of `root`
+    (whole function if None): storage writes (receiver resolved), cosmwasm message constructions,
+    message-building helper calls and cw_controllers management calls."""
+    out = []
+    for chain, f in enumerate_chains(model, root, start_blocks=start_blocks, prefix=prefix):
+        for e in fn_effects(model, f):
+            if f == root and start_blocks is not None and e.block not in start_blocks:
+                continue
+            if e.kind == "write":
+                item = e.what
+                if item.startswith("param:"):
+                    items = resolve_param_item(model, chain, int(item[6:]))
+                    if not items:
+                        out.append((chain, e, item))
+                    for it in items:
+                        out.append((chain, e, it))
+                    continue
+                out.append((chain, e, item))
+            elif e.kind == "msg":
+                if MSG_EFFECT.match(e.what) or CONFIG_CLASS_MSGS.search(e.what):
+                    out.append((chain, e, e.what))
+            elif e.kind == "call":
+                if CONFIG_CLASS_CALLS.search(e.what) or MSG_HELPER_CALLS.search(e.what):
+                    out.append((chain, e, e.what))
+    return out
